@@ -1930,6 +1930,10 @@ func patchCode(context *funcContext) { // {{{
 			if reg := opGetArgA(inst) + 2 + opGetArgC(inst); reg > maxreg {
 				maxreg = reg
 			}
+			// the VM copies generator, state and control into R(A+3) ... R(A+5) for the call
+			if reg := opGetArgA(inst) + 5; reg > maxreg {
+				maxreg = reg
+			}
 		case OP_CALL:
 			if reg := opGetArgA(inst) + opGetArgC(inst) - 2; reg > maxreg {
 				maxreg = reg
